@@ -701,6 +701,11 @@ func (runInfo *runInfoStruct) runReturnStmt(stmt *ast.ReturnStmt) {
 	case 1:
 		runInfo.expr = stmt.Exprs[0]
 		runInfo.invokeExpr()
+		if runInfo.err != nil {
+			return
+		}
+		// the value is returned, not the slice element or struct field it was read from
+		runInfo.rv = unalias(runInfo.rv)
 		return
 	}
 	rvs := make([]interface{}, len(stmt.Exprs))
